@@ -162,6 +162,17 @@ CLAIMED['C03'] = dict(
     technique="typestate-style bracket checking on the CFG under parameter assumptions, provenance rules for acceptance flags, type-directed conversion lint over the clang-resolved AST",
     ref="DESIGN.md section 4, C03")
 
+CLAIMED['C08'] = dict(
+    text="Bookkeeping clauses only, exhaustively over every rule instance: every removeRow/removeCol of a reduction is dominated in its loop iteration "
+         "by an m_hist.append (or fixColumn); every post-step that moves the displaced row/column back does so for all three vectors and then assigns "
+         "all three at the re-inserted index on every non-throwing path (classes whose assignment sits in a data-dependent loop are listed as not "
+         "decided); all 16 PostStep classes are concrete with own execute/clone and a uniform execute signature; unsimplify runs the whole history "
+         "backwards with the vectors in order; every simplifier result is mapped, verdicts never become OPTIMAL, VANISHED is reconstructed from the "
+         "presolver; the reduced LP carries simplifier offset + user offset. The substance of the property - validity of each reduction and of each "
+         "undo formula - is NOT decided: the two seeded formula changes for C08 are not caught.",
+    technique="dominance on the back-edge-free CFG, definite-assignment (must-pass) after an index-shift idiom, class-table and decision-table rules over the clang-resolved AST",
+    ref="DESIGN.md section 4, C08")
+
 NA = {
     'C10': "every clause quantifies over run-time numbers (residuals at rounding level, singular vs. well-conditioned, agreement of multi-rhs solves); "
            "no structural clause is both checkable and necessary (DESIGN.md section 5)",
